@@ -97,31 +97,73 @@ def IfI(c, a, b):
     return z3.If(c, ai, bi)
 
 
+class Lin:
+    """a symbolic natural number: const + sum of weight*[bool]; kept out of the arithmetic theory so that
+    every query stays propositional + pseudo-boolean (decided by z3's SAT-based QF_FD solver)"""
+    __slots__ = ("terms", "const")
+
+    def __init__(self, terms, const=0):
+        self.terms, self.const = terms, const
+
+    def __add__(self, o):
+        if isinstance(o, Lin):
+            return Lin(self.terms + o.terms, self.const + o.const)
+        if isinstance(o, int):
+            return Lin(self.terms, self.const + o)
+        return NotImplemented
+
+    __radd__ = __add__
+
+    def __sub__(self, o):
+        if isinstance(o, Lin):
+            return Lin(self.terms + [(b, -w) for b, w in o.terms], self.const - o.const)
+        if isinstance(o, int):
+            return Lin(self.terms, self.const - o)
+        return NotImplemented
+
+    def __rsub__(self, o):
+        return Lin([(b, -w) for b, w in self.terms], o - self.const)
+
+    def cmp(self, op, o):
+        d = self - o if not isinstance(o, Lin) or True else None
+        terms, k = d.terms, -d.const  # sum(terms) op k
+        if not terms:
+            return {"<": 0 < k, "<=": 0 <= k, ">": 0 > k, ">=": 0 >= k, "==": 0 == k, "!=": 0 != k}[op]
+        if op == "<=":
+            return z3.PbLe(terms, k)
+        if op == "<":
+            return z3.PbLe(terms, k - 1)
+        if op == ">=":
+            return z3.PbGe(terms, k)
+        if op == ">":
+            return z3.PbGe(terms, k + 1)
+        if op == "==":
+            return z3.And(z3.PbLe(terms, k), z3.PbGe(terms, k))
+        if op == "!=":
+            return z3.Not(z3.And(z3.PbLe(terms, k), z3.PbGe(terms, k)))
+        raise ValueError(op)
+
+
 def b2i(b):
     if isinstance(b, bool):
         return 1 if b else 0
-    return z3.If(b, 1, 0)
+    return Lin([(b, 1)], 0)
 
 
 def SumI(xs):
-    c = 0
-    sym = []
+    acc = 0
     for x in xs:
-        if isinstance(x, int):
-            c += x
-        else:
-            sym.append(x)
-    if not sym:
-        return c
-    if c:
-        sym.append(z3.IntVal(c))
-    if len(sym) == 1:
-        return sym[0]
-    return z3.Sum(sym)
+        acc = acc + x
+    return acc
+
+
+def new_solver():
+    """SAT-based finite-domain solver: all symx queries are propositional + pseudo-boolean"""
+    return z3.SolverFor("QF_FD")
 
 
 def is_sym(v):
-    return isinstance(v, z3.ExprRef)
+    return isinstance(v, (z3.ExprRef, Lin))
 
 
 def Eq_(a, b):
@@ -171,3 +213,22 @@ def merge_alts(alts):
             out[key] = (c, v)
             order.append(key)
     return [out[k] for k in order]
+
+
+class Namer:
+    """introduces a fresh Boolean for a state bit and asserts its definition permanently in the solver
+    (iteration-boundary let-binding): later formulas stay shallow and every check only internalises what
+    is new, instead of re-encoding the whole unrolled history under each push/pop."""
+
+    def __init__(self, solver, prefix="d"):
+        self.solver, self.prefix, self.n = solver, prefix, 0
+
+    def name(self, b):
+        if isinstance(b, bool):
+            return b
+        if z3.is_const(b) or (z3.is_not(b) and z3.is_const(b.arg(0))):
+            return b
+        self.n += 1
+        v = z3.Bool("%s%d" % (self.prefix, self.n))
+        self.solver.add(v == b)
+        return v
